@@ -74,19 +74,33 @@ def _ref_world(world: dict) -> R.World:
     if world['sub'] and world['pre'] != 'override_sub':
         subv = G.SUB_VERSIONS[world['pver']]
     return R.World(system=world['system'], wrap_mode=world['wrap_mode'], fff=world['fff'],
-                   provide=world['provide'], sub_on_disk=not world.get('sub_download'), sub_version=subv)
+                   provide=world['provide'], sub_on_disk=not world.get('sub_download'), sub_version=subv,
+                   sub_overrides=bool(world.get('sub_overrides')), main_dl=world.get('main_dl', 'shared'),
+                   sub_dl_how=world.get('sub_dl_how', 'same'), sub_dl_value=world.get('sub_dl_value'))
 
 
 def _ref_state(world: dict) -> R.State:
     pre = world['pre']
-    if pre in ('override', 'override_sub'):
-        return R.State(override=('override', G.OVR_VERSIONS[world['pver']]))
-    return R.State(configured=(pre == 'configured'))
+    w = _ref_world(world)
+    if pre == 'override':       # made by the main project, without static:
+        return R.State(override=('override', G.OVR_VERSIONS[world['pver']]), override_slots=R.slots(w.main_dl))
+    if pre == 'override_sub':   # made by the subproject configured through subproject()
+        return R.State(override=('override', G.OVR_VERSIONS[world['pver']]), override_slots=R.slots(R.pre_dl(w)),
+                       configured=True, sub_dl=R.pre_dl(w))
+    if pre == 'configured':
+        return R.State(configured=True, sub_dl=R.pre_dl(w))
+    return R.State()
 
 
-def _ref_lookup(lk: dict) -> R.Lookup:
+def _ref_lookup(lk: dict, world: T.Optional[dict] = None) -> R.Lookup:
+    world = world or {}
+    if lk['explicit']:
+        has_var = lk.get('eform', 'pair') == 'pair'
+    else:
+        has_var = bool(world.get('provide')) and not world.get('sub_overrides')
     return R.Lookup(constraint=lk['constraint'], required=lk['required'],
-                    allow_fallback=lk['allow_fallback'], explicit_fallback=lk['explicit'])
+                    allow_fallback=lk['allow_fallback'], explicit_fallback=lk['explicit'],
+                    static=lk.get('static'), has_var=has_var)
 
 
 def _policy_mechanism(world: dict, lk: dict, allowed: T.Set[tuple], obs: tuple, facts: dict) -> str:
@@ -108,6 +122,10 @@ def _policy_mechanism(world: dict, lk: dict, allowed: T.Set[tuple], obs: tuple, 
         flags.append('optional')
     if lk['allow_fallback'] is not None:
         flags.append('allow_fallback-' + str(lk['allow_fallback']).lower())
+    if lk.get('static') is not None:
+        flags.append('static-' + str(lk['static']).lower())
+    if world.get('sub_dl_how', 'same') != 'same':
+        flags.append('sub-default_library-via-' + world['sub_dl_how'])
     return f'policy:expected-{exp}-got-{obs[0]}' + (':' + ','.join(flags) if flags else '')
 
 
@@ -206,7 +224,7 @@ def _judge_policy_run(world: dict, r: runner.Result, out: dict, c: T.Callable, p
             else:
                 break
             answers.append(obs)
-            rl = _ref_lookup(lk)
+            rl = _ref_lookup(lk, world)
             allowed, tag, facts = R.expect(w, st, rl)
             c('A:lookups-judged')
             c('A:tag-' + tag)
@@ -270,14 +288,29 @@ IGNORED_TREE_FILES = {'.meson-subproject-wrap-hash.txt'}
 
 
 def tree_digest(d: str) -> T.Dict[str, str]:
+    """relative path -> sha256 of a regular file / 'link:<target>' of a symbolic link (never followed)."""
     out = {}
-    for dp, _dn, fn in os.walk(d):
-        for f in fn:
-            if f in IGNORED_TREE_FILES:
-                continue
+    for dp, dn, fn in os.walk(d):
+        for f in dn + fn:
             p = os.path.join(dp, f)
-            out[os.path.relpath(p, d)] = M.sha_file(p) or '?'
+            if os.path.islink(p):
+                out[os.path.relpath(p, d)] = 'link:' + os.readlink(p)
+            elif f in fn and f not in IGNORED_TREE_FILES:
+                out[os.path.relpath(p, d)] = M.sha_file(p) or '?'
     return out
+
+
+def force_rmtree(d: str) -> None:
+    """Remove a case directory that may contain read-only directories."""
+    for dp, dn, _fn in os.walk(d):
+        for x in dn:
+            p = os.path.join(dp, x)
+            if not os.path.islink(p):
+                try:
+                    os.chmod(p, 0o755)
+                except OSError:
+                    pass
+    shutil.rmtree(d, ignore_errors=True)
 
 
 def _b_failing_step_is_source_unpack(spec: dict) -> bool:
@@ -440,7 +473,7 @@ def run_wrap_case(spec: dict) -> dict:
         out['sample'] = {'spec': spec, 'runs': runs}
         return out
     finally:
-        shutil.rmtree(root, ignore_errors=True)
+        force_rmtree(root)
 
 
 # ====================================================================================================
@@ -545,6 +578,28 @@ def b_specs(tier: str, rng: random.Random) -> T.List[dict]:
                   fault={'kind': 'check_hash', 'ns': [1]})
         both_cmds(source=role(loc='url', fmt=fmt()), patch_directory=True, diffs='bad', src_has_build=shb)
         both_cmds(source=role(loc='url', fmt=fmt()), diffs='bad', src_has_build=True)
+    # 6. hostile-but-legitimate source trees (dangling symlink, symlink to a directory, read-only file in a read-only
+    #    directory) x every patch/diff fault: the clean-up after the failed step has to cope with them
+    tfmt = ('tar', 'tar.gz')
+    for n_ex, extras in enumerate((['dangling'], ['dirlink', 'readonly'], ['dangling', 'dirlink', 'readonly'])):
+        def src() -> dict:
+            k[0] += 1
+            return role(loc=('url', 'cache', 'files')[k[0] % 3], fmt=tfmt[k[0] % 2])
+        both_cmds(source=src(), tree_extras=extras)
+        both_cmds(source=src(), patch=role(loc='url', fmt=fmt()), diffs='good', tree_extras=extras)
+        for ploc in (('url',) if tier == 'quick' else ('url', 'cache', 'files')):
+            both_cmds(source=src(), patch=role(loc=ploc, corrupt='evil', fmt=fmt()), tree_extras=extras)
+            both_cmds(source=src(), patch=role(loc=ploc, hash='lastdigit', fmt=fmt()), tree_extras=extras)
+            both_cmds(source=src(), patch=role(loc=ploc, fmt=fmt()), tree_extras=extras,
+                      fault={'kind': 'unpack', 'ns': [2, 3], 'partial': True})
+        if tier == 'thorough':
+            both_cmds(source=src(), patch=role(loc='url', corrupt='absent', fmt=fmt()), tree_extras=extras)
+            both_cmds(source=src(), patch=role(loc='cache', fmt=fmt()), tree_extras=extras,
+                      fault={'kind': 'check_hash', 'ns': [2]})
+        both_cmds(source=src(), diffs='good', tree_extras=extras, fault={'kind': 'patchshim'})
+        both_cmds(source=src(), diffs='bad', tree_extras=extras)
+        both_cmds(source=src(), diffs='missing', tree_extras=extras)
+        both_cmds(source=src(), patch_directory=True, diffs='bad', tree_extras=extras)
     # de-duplicate structurally, shuffle for load balance
     seen = set()
     uniq = []
@@ -601,14 +656,26 @@ def main() -> int:
     # ---- Part A -------------------------------------------------------------------------------------
     if quick:
         core = G.a_core_table(rng)
-        cells = core + [c for c in G.a_pairwise_sample(rng, 420) if c not in core]
+        cells = core + [c for c in G.a_pairwise_sample(rng, 320) if c not in core]
     else:
         cells = G.a_full_table()
-    for cell in cells:
+    n_core = len(core) if quick else len(cells)
+    for k, cell in enumerate(cells):
         cell = dict(cell, sub_overrides=rng.random() < 0.5, eform=rng.choice(['pair', 'single']),
                     afform=rng.choice(['kw', 'emptyfb']), sub_download=rng.random() < 0.2,
                     optstyle=rng.choice(['D', 'long']))
+        if k >= n_core or not quick:
+            # the filler (and the thorough table) also varies static: and the default_library relation
+            if rng.random() < 0.4:
+                cell['static'] = rng.choice([True, False])
+            if rng.random() < 0.4:
+                cell.update(G.random_dl(rng, True))
         items.append(('A', G.a_cell_to_world(cell)))
+    # static: x default_library (main vs subproject) for the link kinds that rely on the subproject's override
+    static_cells = G.a_static_table(rng, full=not quick)
+    # placed right after the core table: they belong to the prioritised part
+    items[n_core:n_core] = [('A', G.a_cell_to_world(c)) for c in static_cells]
+    n_core += len(static_cells)
     n_cells = len(items)
     names = list(G.A_FACTORS)
     need = sum(len(G.A_FACTORS[a]) * len(G.A_FACTORS[b]) for i, a in enumerate(names) for b in names[i + 1:])
@@ -625,7 +692,7 @@ def main() -> int:
         # keep every fault case and every corruption/hash case once; trim the rest by the seed
         bspecs = bspecs[:330]
     items += [('B', s) for s in bspecs]
-    chk.notes['planned'] = {'A_cells': n_cells, 'A_sequences': n_a - n_cells, 'B_cases': len(items) - n_a}
+    chk.notes['planned'] = {'A_cells': n_cells, 'A_static_table_cells': len(static_cells), 'A_sequences': n_a - n_cells, 'B_cases': len(items) - n_a}
 
     # run in slices so that the time budget can stop the exploration (counted, never silent)
     t0 = time.time()
@@ -634,7 +701,6 @@ def main() -> int:
     # priority: the exhaustive core interaction table and every integrity case first (shuffled together so that
     # slow and fast cases mix), then the random filler (pairwise sample, sequences, reconfigurations): a time cut
     # on a loaded machine trims only the filler
-    n_core = len(core) if quick else n_cells
     first = list(range(n_core)) + list(range(n_a, len(items)))
     rest = list(range(n_core, n_a))
     rng.shuffle(first)
